@@ -10,9 +10,9 @@ CLAIMED = {
    technique="Coq-verified closure oracle as judge + code-shaped census model; differential exploration of the classifier",
    design="6 C01"),
  "C09": dict(
-   text="Proof (name arithmetic) + exploration. Proved for every list of canonical graphs: the repaired get_dla_dim equals the dimension of the reported name (C09_name); the snapshot's formula is refuted on its model. Per run: get_dla_dim vs |closure| from the verified oracle and vs the parsed name on the C01 input streams; synthetic Classification objects vs Model/Star.v.",
-   note="Equality with |closure| rests on C01 and is validated per input (n<=6 quick, <=8 thorough). No axioms.",
-   technique="Coq proof of dimension arithmetic + verified closure oracle as judge",
+   text="Proof (name arithmetic) + exploration. Proved for every list of canonical graphs: the repaired get_dla_dim equals the dimension of the reported name (C09_name); the snapshot's formula is refuted on its model; the census dimension equals the number of strings of the commutator closure for each of the 56 canonical stars with a single leg and at most 10 vertices and EVERY independent generator list with that anticommutation graph, on any number of qubits (C09_census_is_closure_size: closure of the standard realisation enumerated in the kernel, carried to every realisation by the graph-determines-closure theorem). Per run: get_dla_dim vs |closure| from the verified oracle and vs the parsed name on the C01 input streams; synthetic Classification objects vs Model/Star.v.",
+   note="Beyond 10 canonical vertices, and for the link closure(canonical vertices) = closure(input) (C02), equality with |closure| is validated per input (n<=7 quick, <=8 thorough; in-place histories included). The census theorem is a bounded kernel computation (vm_compute, 12 s) lifted to all realisations by a proof. No axioms.",
+   technique="Coq proof of dimension arithmetic + census = closure size for all canonical stars up to 10 vertices (kernel computation lifted by the graph-determines-closure theorem) + verified closure oracle as judge",
    design="6 C09"),
  "C02": dict(
    text="Translation-validation style: the reduction pipeline is not ported; its observable output (legs and dependents per canonical graph) is checked on every run by the Coq function reduction_ok, proved sound for every n (C02_validator_sound: true implies closure equality w.r.t. the inductive Cl, dependents in the closure, accounting, one graph per component, exact star shape). Closure laws justifying the pipeline's moves (contraction, added product, transport) proved for all n. Inputs: exhaustive small, structured, uniform collections n<=8 with closure; 9..16 qubits with shape/accounting and the F2-span necessary condition.",
